@@ -532,6 +532,9 @@ var unwound bool
 func markUnwound() { unwound = true }
 
 //go:norace
+func peekUnwound() bool { return unwound }
+
+//go:norace
 func takeUnwound() bool {
 	u := unwound
 	unwound = false
